@@ -130,6 +130,16 @@ def is_bool(x):
     return isinstance(x, (bool, np.bool_))
 
 
+def brief(x, limit=80):
+    """repr that survives integers of thousands of digits"""
+    if isinstance(x, int) and not isinstance(x, bool) and abs(x) >= 10 ** 40:
+        return f'<int of {x.bit_length()} bits>'
+    try:
+        return repr(x)[:limit]
+    except Exception as exc:     # noqa
+        return f'<{type(x).__name__}: repr failed: {exc}>'
+
+
 def mismatch(got, want):
     """None if got is the defined value `want`, else a short reason."""
     if isinstance(got, BaseException):
@@ -137,35 +147,35 @@ def mismatch(got, want):
     t = want[0]
     if t == 'N':
         if not is_universe_number(got):
-            return f'not a number of the universe: {type(got).__name__} {str(got)[:60]}'
+            return f'not a number of the universe: {type(got).__name__} {brief(got, 60)}'
         exp = frac_of(want)
         g = Fraction(got)
         if g == exp or abs(g - exp) <= Fraction(1, 10 ** 12) * abs(exp):
             return None
-        return f'number {got!r} != {float(exp)!r}'
+        return f'number {brief(got)} != {float(exp)!r}'
     if t == 'B':
         if not is_bool(got):
-            return f'not a logical: {type(got).__name__} {str(got)[:60]}'
-        return None if bool(got) == bool(want[1]) else f'{got!r} != {bool(want[1])}'
+            return f'not a logical: {type(got).__name__} {brief(got, 60)}'
+        return None if bool(got) == bool(want[1]) else f'{brief(got)} != {bool(want[1])}'
     if t == 'S':
         if not isinstance(got, str):
-            return f'not text: {type(got).__name__} {str(got)[:60]}'
-        return None if got == text_of(want) else f'text {got!r} != {text_of(want)!r}'
+            return f'not text: {type(got).__name__} {brief(got, 60)}'
+        return None if got == text_of(want) else f'text {brief(got)} != {text_of(want)!r}'
     if t == 'E':
         return None if isinstance(got, str) and got == want[1] else \
-            f'{got!r} ({type(got).__name__}) != {want[1]}'
+            f'{brief(got)} ({type(got).__name__}) != {want[1]}'
     if t == 'U':
         kind = want[1]
         if kind == 'num':
             return None if is_universe_number(got) else \
-                f'not a number of the universe: {type(got).__name__} {str(got)[:60]}'
+                f'not a number of the universe: {type(got).__name__} {brief(got, 60)}'
         if kind == 'bool':
-            return None if is_bool(got) else f'not a logical: {got!r}'
+            return None if is_bool(got) else f'not a logical: {brief(got)}'
         if kind == 'text':
-            return None if isinstance(got, str) and got not in ERRORS else f'not text: {got!r}'
+            return None if isinstance(got, str) and got not in ERRORS else f'not text: {brief(got)}'
         if is_universe_number(got) or is_bool(got) or isinstance(got, str):
             return None
-        return f'not a value of the universe: {type(got).__name__} {str(got)[:60]}'
+        return f'not a value of the universe: {type(got).__name__} {brief(got, 60)}'
     raise ValueError(want)
 
 
@@ -297,7 +307,7 @@ class Binder:
                 f"[{mode}] {vec['op']} on {opnd}: defined {show(want)}; {why}"
                 + (f" ({extra['formula']})" if 'formula' in extra else ''),
                 dict(mode=mode, op=vec['op'], a=vec['a'], b=vec['b'], want=want,
-                     got=repr(got)[:200], **extra))
+                     got=brief(got, 200), **extra))
 
     def pairs(self, vectors, formula_share=1.0):
         v = self.v
@@ -371,14 +381,14 @@ class Binder:
                         f"[direct] ({show(vec['a'])} {op} {show(vec['b'])}) {op} "
                         f"{show(vec['c'])}: defined {show(want)}; {why}",
                         dict(mode='nested', op=op, a=vec['a'], b=vec['b'], c=vec['c'],
-                             want=want, got=repr(got)[:200]))
+                             want=want, got=brief(got, 200)))
             if all(vec[k][0] in 'NSB' for k in 'abc'):
                 ab, bc, ac = (direct(fix, '<=', x, y) for x, y in ((a, b), (b, c), (a, c)))
                 chains += 1
                 if ab is True and bc is True and ac is not True:
                     v.violation(
                         f"<= not transitive on the code: {show(vec['a'])} <= "
-                        f"{show(vec['b'])} <= {show(vec['c'])} but a <= c gives {ac!r}",
+                        f"{show(vec['b'])} <= {show(vec['c'])} but a <= c gives {brief(ac)}",
                         dict(mode='transitive', a=vec['a'], b=vec['b'], c=vec['c']))
             if self.rnd.random() < formula_budget / max(1, len(vectors)):
                 sample.append(vec)
@@ -406,7 +416,7 @@ class Binder:
                         f"[cells] {f} with {show(vec['a'])}, {show(vec['b'])}, "
                         f"{show(vec['c'])}: defined {show(vec['nested'][q])}; {why}",
                         dict(mode='nested-cells', formula=f, a=vec['a'], b=vec['b'],
-                             c=vec['c'], want=vec['nested'][q], got=repr(got[addr])[:200]))
+                             c=vec['c'], want=vec['nested'][q], got=brief(got[addr], 200)))
         return nested, chains, len(sample)
 
 
@@ -608,7 +618,7 @@ def replay(path):
         print(f'replay of mode {mode!r}: re-run bin/check C10 --tier thorough')
         return 2
     why = mismatch(got, case['want'])
-    print(f"replay {rec['desc']}\n  now: {got!r}")
+    print(f"replay {rec['desc']}\n  now: {brief(got, 200)}")
     if why:
         print(f'VIOLATION property={PID} replay={path}\n  {why}')
         return 1
